@@ -136,10 +136,13 @@ Proof.
   unfold memb, pw. destruct (existsb (N.eqb i) ids); reflexivity.
 Qed.
 
-Lemma maj_exact c : c_powers c = P -> 2 * ptotal < two64 -> maj23 c = 2 * ptotal / 3 + 1.
+Lemma maj_exact c : c_powers c = P -> ptotal < two64 -> maj23 c = 2 * ptotal / 3 + 1.
 Proof.
-  intros HP H. unfold maj23, total_power, minimumMaj23. rewrite HP. fold ptotal.
-  rewrite mul64_exact by exact H. apply add64_exact. unfold two64 in *. lia.
+  intros HP H. unfold maj23, total_power, minimumMaj23. rewrite HP. fold ptotal. unfold two64 in H.
+  rewrite (mul64_exact 2 (ptotal / 3)) by (unfold two64; lia).
+  rewrite (mul64_exact 2 (ptotal mod 3)) by (unfold two64; lia).
+  rewrite (add64_exact (2 * (ptotal / 3))) by (unfold two64; lia).
+  rewrite add64_exact by (unfold two64; lia). lia.
 Qed.
 
 (* quorum intersection: two sets of +2/3 power share a member outside any set [bz] of less than 1/3 power *)
